@@ -141,8 +141,66 @@ def check(plan) -> Result:
     return r
 
 
+def check_merged(plan) -> Result:
+    """The same sequences with several frames arriving in ONE read: what is handed up and what is written back, in order,
+    must be what frame-by-frame arrival gives (per DATA frame one ACK/NAK with the number after that frame)."""
+    start, seq, cuts = plan["start"], [tuple(s_) for s_ in plan["seq"]], plan["cuts"]
+    r = Result(key=["m", start, plan["seq"], cuts], classes=["several-frames-per-read"])
+    proto, tr, up = make_host()
+    expected = 0
+    for i in range(start):
+        data, _ = encode(("D", i, 0, 0), 9000 + i)
+        proto.data_received(data)
+        expected = (expected + 1) % 8
+    groups, cur = [], []
+    for k, sym in enumerate(seq):
+        if sym[0] == "H":
+            continue
+        cur.append((k + 1, sym))
+        if k in cuts or k == len(seq) - 1:
+            groups.append(cur)
+            cur = []
+    if cur:
+        groups.append(cur)
+    multi = False
+    for g in groups:
+        want_ev, want_wr, blob = [], [], b""
+        for idx, sym in g:
+            data, payload = encode(sym, idx)
+            blob += data
+            if sym[0] == "D":
+                if sym[1] == expected:
+                    expected = (expected + 1) % 8
+                    want_ev.append(("data", payload))
+                    want_wr.append(("ACK", expected))
+                else:
+                    want_wr.append((("ACK" if sym[2] else "NAK"), expected))
+            elif sym[0] == "K":
+                expected = 0
+                want_ev.append(("reset", sym[1]))
+            elif sym[0] == "E":
+                want_ev.append(("reset", sym[1]))
+        multi = multi or len(g) > 1
+        w0, e0 = len(tr.writes), len(up.events)
+        try:
+            proto.data_received(blob)
+        except Exception as e:
+            r.bad("C04:raises", f"chunk {g}: {e!r}")
+            return r
+        got_wr = [(f.get("kind"), f.get("ack")) for _, d in tr.writes[w0:] for f in refash.split_wire(d)]
+        got_ev = [(k_, v) for _, k_, v in up.events[e0:]]
+        if got_ev != want_ev:
+            r.bad("C04:merged-read:upward-differs", f"frames {g} in one read: handed up {got_ev}, frame by frame {want_ev}; plan {plan}")
+            return r
+        if got_wr != want_wr:
+            r.bad("C04:merged-read:not-one-ack-or-nak-per-data-frame", f"frames {g} in one read: wrote {got_wr}, expected {want_wr}; plan {plan}")
+            return r
+    r.nontrivial = multi
+    return r
+
+
 def replay(plan) -> Result:
-    return check(plan)
+    return check_merged(plan) if "cuts" in plan else check(plan)
 
 
 def _worker(ctx, job):
@@ -195,11 +253,34 @@ def run(ctx):
         })
         ctx.search(strat, check, max_examples=30000)
 
+    ctx.parallel(_worker_pairs, list(range(8)))
+    ctx.exhaustive["every ordered pair of frames arriving in one read, from 8 start states"] = True
     if quick:
         ctx.parallel(_worker_long, [250] * 8)
     else:
         ctx.parallel(_worker_long, [3200] * 16)
 
 
+@st.composite
+def merged_seq(draw):
+    plan = draw(long_seq())
+    n = min(len(plan["seq"]), 60)
+    plan["seq"] = plan["seq"][:n]
+    plan["cuts"] = sorted(draw(st.sets(st.integers(0, n - 1), max_size=n // 2)))
+    return plan
+
+
 def _worker_long(c, n):
     c.search(long_seq(), check, max_examples=n)
+    c.search(merged_seq(), check_merged, max_examples=n)
+
+
+def _worker_pairs(c, start):
+    """every ordered pair of symbols in one read"""
+    if True:
+        for a_ in range(len(SYMS)):
+            for b_ in range(len(SYMS)):
+                if SYMS[a_][0] == "H" or SYMS[b_][0] == "H":
+                    continue
+                plan = {"start": start, "seq": [list(SYMS[a_]), list(SYMS[b_])], "cuts": []}
+                c.check(plan, check_merged(plan), sample=(a_ == 2 and b_ == 5 and start == 0))
